@@ -1,7 +1,7 @@
 """C09 Celestial coordinate conversions are invertible isometries with correct poles."""
 import numpy as np
 
-from vlib import probe
+from vlib import gen, probe
 from vlib.probe import COL
 from vlib.refs import sphere as sp
 
@@ -240,6 +240,21 @@ def _f8(v):
     return np.asarray(v, dtype="f8")
 
 
+def _v(rng, x):
+    """the array itself, or (3 in 10) the same values as a non-contiguous float64 view"""
+    return gen.maybe_view(rng, np.asarray(x, dtype="f8"), 0.3)
+
+
+def _again(name, fn, args, first, wit):
+    """a conversion is a function of its arguments: the same call on the same argument objects gives the same bits"""
+    second, e = probe.attempt(fn, *args)
+    if e is not None:
+        _rel("repeatable", False, "%s raised %s on the second identical call" % (name, type(e).__name__), wit)
+        return
+    same = all(np.array_equal(np.asarray(x), np.asarray(y), equal_nan=True) for x, y in zip(first, second))
+    _rel("repeatable", same, "%s returns different values when called again on the same argument objects" % name, wit, (name,))
+
+
 def run_case(case):
     import esutil.coords as co
     rng = np.random.default_rng(case["sub"])
@@ -262,7 +277,7 @@ def run_case(case):
             lon = rng.choice([0.0, 360.0, 360.0 - 1e-9, 1e-9, 180.0, 90.0, 270.0], size=n)
             lat = np.degrees(np.arcsin(rng.uniform(-1, 1, size=n)))
         scalar = n == 1 and rng.random() < .5
-        a, b = (float(lon[0]), float(lat[0])) if scalar else (lon, lat)
+        a, b = (float(lon[0]), float(lat[0])) if scalar else (_v(rng, lon), _v(rng, lat))
         wit = {"select": sel, "b1950": b1950, "lon": lon[:4], "lat": lat[:4], "family": fam}
         COL.sample({"family": fam, "select": sel, "b1950": b1950, "lon": lon[:3].tolist(), "lat": lat[:3].tolist()}, limit=8)
         use_named = rng.random() < .6
@@ -272,6 +287,7 @@ def run_case(case):
         if e is not None:
             return
         ol, ob = out
+        _again("euler", fwd, (a, b), out, wit)
         if not (np.all(np.isfinite(ol)) and np.all(np.isfinite(ob))):
             return
         back, e = probe.attempt(inv, ol, ob)
@@ -316,11 +332,14 @@ def run_case(case):
             ra = rng.choice([95.0, 275.0, 185.0, 0.0, 360.0, 5.0], size=n)
             dec = rng.choice([0.0, 32.5, -32.5, 57.5, -57.5, 90.0, -90.0], size=n)
         scalar = n == 1 and rng.random() < .5
-        out, e = probe.attempt(co.eq2sdss, float(ra[0]) if scalar else ra, float(dec[0]) if scalar else dec)
+        ain, bin_ = (float(ra[0]), float(dec[0])) if scalar else (_v(rng, ra), _v(rng, dec))
+        out, e = probe.attempt(co.eq2sdss, ain, bin_)
         wit = {"ra": ra[:4], "dec": dec[:4]}
         if e is None and np.all(np.isfinite(out[0])) and np.all(np.isfinite(out[1])):
+            _again("eq2sdss", co.eq2sdss, (ain, bin_), out, wit)
             back, e = probe.attempt(co.sdss2eq, out[0], out[1])
             if e is None:
+                _again("sdss2eq", co.sdss2eq, (out[0], out[1]), back, wit)
                 err = sp.sep(ra, dec, back[0], back[1])
                 _rel("roundtrip-sdss", np.all(err <= 1e-9), "eq2sdss then sdss2eq moves a point by %.3g deg" % float(err.max()), wit, (mode,))
             if n >= 2:
@@ -341,7 +360,11 @@ def run_case(case):
         stomp = bool(rng.random() < .3)
         a, b = (ra, dec) if units == "deg" else (np.radians(ra), np.radians(dec))
         scalar = n == 1 and rng.random() < .5
+        if not scalar:
+            a, b = _v(rng, a), _v(rng, b)
         v, e = probe.attempt(co.eq2xyz, float(a[0]) if scalar else a, float(b[0]) if scalar else b, units=units, stomp=stomp)
+        if e is None and not scalar:
+            _again("eq2xyz", lambda x, y: co.eq2xyz(x, y, units=units, stomp=stomp), (a, b), v, {"units": units, "stomp": stomp})
         if e is None:
             back, e = probe.attempt(co.xyz2eq, v[0], v[1], v[2], units=units, stomp=stomp)
             if e is None:
